@@ -51,6 +51,10 @@ def configs(tier):
                   label="2clients-same-id"))
     # application-chosen invoke IDs (second submit must be refused, third goes to another peer)
     C.append(MCfg(one, [2, 3], [(0, 2, 5), (0, 2, 5), (0, 3, 5)], inj=1, dup=0, label="app-chosen-ids"))
+    # the servers have announced themselves; a foreign reply may come from a station that claims the instance of the
+    # station the live request went to
+    C.append(MCfg(one, [2, 3], [(0, 2, None), (0, 3, None)], inj=1, dup=0, deliver_width=2, iam=True,
+                  inj_types=("SimpleAck", "Abort"), label="2req-2srv-announced-inj1"))
     # chosen IDs that are no octet (one that folds onto a live ID, one negative): refused at submission, nothing left behind,
     # the live request with ID 5 undisturbed
     C.append(MCfg(one, [2], [(0, 2, 5), (0, 2, 261), (0, 2, -251), (0, 2, 256)], inj=0, dup=1, label="app-chosen-ids-out-of-range"))
